@@ -28,9 +28,10 @@ impl TryFrom<f64> for HFloat {
 
     fn try_from(value: f64) -> Result<Self, Self::Error> {
         let hv = f16::from_f64(value);
-        let error = (hv.to_f64() - value).abs();
-        if error < ALLOWED_ERROR {
-            Ok(Self(f16::from_f64(value)))
+        // Only values that survive the round trip exactly may be stored as an immediate:
+        // an approximation here would make the VM compute with a different constant than the source says.
+        if hv.to_f64().to_bits() == value.to_bits() {
+            Ok(Self(hv))
         } else {
             Err(())
         }
